@@ -7,6 +7,8 @@ import (
 	"go/types"
 	"os"
 	"path/filepath"
+	"runtime"
+	"runtime/pprof"
 	"sort"
 	"strconv"
 	"strings"
@@ -24,6 +26,7 @@ type HarnessSpec struct {
 	Dir       string              `json:"dir"`
 	Entry     string              `json:"entry"`
 	Grid      map[string][][]int  `json:"grid"`
+	GridProduct map[string][][]int `json:"grid_product"`
 	Unwind    int                 `json:"unwind"`
 	MaxFork   int                 `json:"max_fork"`
 	MaxSteps  int                 `json:"max_steps"`
@@ -74,7 +77,9 @@ func main() {
 	}
 	switch os.Args[1] {
 	case "run":
-		os.Exit(cmdRun(os.Args[2:]))
+		rc := cmdRun(os.Args[2:])
+		pprof.StopCPUProfile()
+		os.Exit(rc)
 	case "replay":
 		os.Exit(cmdReplay(os.Args[2:]))
 	default:
@@ -207,8 +212,9 @@ func findFunc(prog *ssa.Program, defaultPkg *ssa.Package, name string) *ssa.Func
 	return defaultPkg.Func(name)
 }
 
-func runJob(l *loaded, h *HarnessSpec, params []int, tier string, known map[string][]string, workdir string, trace bool) *job {
+func runJob(l *loaded, h *HarnessSpec, params []int, tier string, known map[string][]string, workdir string, trace bool, cpu int) *job {
 	j := &job{h: h, params: params}
+	defer pinThread(cpu)()
 	t0 := time.Now()
 	defer func() { j.wall = time.Since(t0) }()
 	var spkg *ssa.Package
@@ -228,6 +234,7 @@ func runJob(l *loaded, h *HarnessSpec, params []int, tier string, known map[stri
 	}
 	ts := NewTermStore()
 	sol := NewSolver(ts, workdir)
+	sol.cpu = cpu
 	if h.SolverTimeoutS > 0 {
 		sol.hardTO = time.Duration(h.SolverTimeoutS) * time.Second
 	}
@@ -300,6 +307,7 @@ func cmdRun(args []string) int {
 	only := fs.String("only", "", "run only the named harness")
 	trace := fs.Bool("trace", false, "trace instructions")
 	evidenceOut := fs.String("evidence", "", "evidence file (default <root>/evidence/<ID>.json)")
+	cpuprof := fs.String("cpuprofile", "", "write CPU profile")
 	if len(args) < 1 {
 		fmt.Fprintln(os.Stderr, "usage: vcheck run <ID> ...")
 		return 3
@@ -320,6 +328,11 @@ func cmdRun(args []string) int {
 	}
 	if *jobsN <= 0 {
 		*jobsN = 12
+	}
+	if *cpuprof != "" {
+		f, _ := os.Create(*cpuprof)
+		pprof.StartCPUProfile(f)
+		defer pprof.StopCPUProfile()
 	}
 	t0 := time.Now()
 	evPath := *evidenceOut
@@ -389,6 +402,9 @@ func cmdRun(args []string) int {
 		if grid == nil {
 			grid = h.Grid["quick"]
 		}
+		if gp, ok := h.GridProduct[*tier]; ok {
+			grid = append(grid, product(gp)...)
+		}
 		if grid == nil {
 			grid = [][]int{{}}
 		}
@@ -401,14 +417,19 @@ func cmdRun(args []string) int {
 	}
 	var wg sync.WaitGroup
 	ch := make(chan int)
+	ncpu := runtime.NumCPU()
 	for w := 0; w < *jobsN; w++ {
 		wg.Add(1)
-		go func() {
+		go func(w int) {
 			defer wg.Done()
-			for i := range ch {
-				jobs[i] = runJob(l, jobs[i].h, jobs[i].params, *tier, known, workdir, *trace)
+			cpu := -1
+			if os.Getenv("VERIF_NOPIN") == "" && ncpu > 1 {
+				cpu = w % ncpu
 			}
-		}()
+			for i := range ch {
+				jobs[i] = runJob(l, jobs[i].h, jobs[i].params, *tier, known, workdir, *trace, cpu)
+			}
+		}(w)
 	}
 	for i := range jobs {
 		ch <- i
@@ -593,11 +614,7 @@ func cmdRun(args []string) int {
 		for i := range spec.Harnesses {
 			h := &spec.Harnesses[i]
 			p := get(h)
-			n := 0
-			if g := h.Grid["quick"]; len(g) > 0 {
-				n = len(g[0])
-			}
-			p.entries[h.Entry] = n
+			p.entries[h.Entry] = arityOf(h)
 		}
 		for _, c := range ucands {
 			h := hByName[c.Harness]
@@ -849,6 +866,32 @@ func cmdRun(args []string) int {
 	return 0
 }
 
+func arityOf(h *HarnessSpec) int {
+	for _, g := range h.Grid {
+		if len(g) > 0 {
+			return len(g[0])
+		}
+	}
+	for _, g := range h.GridProduct {
+		return len(g)
+	}
+	return 0
+}
+
+func product(lists [][]int) [][]int {
+	out := [][]int{{}}
+	for _, l := range lists {
+		var nxt [][]int
+		for _, p := range out {
+			for _, v := range l {
+				nxt = append(nxt, append(append([]int(nil), p...), v))
+			}
+		}
+		out = nxt
+	}
+	return out
+}
+
 func firstLines(s string, n int) string {
 	ls := strings.Split(s, "\n")
 	if len(ls) > n {
@@ -915,11 +958,7 @@ func cmdReplay(args []string) int {
 	for i := range spec.Harnesses {
 		hh := &spec.Harnesses[i]
 		if hh.Dir == h.Dir {
-			n := 0
-			if g := hh.Grid["quick"]; len(g) > 0 {
-				n = len(g[0])
-			}
-			entries[hh.Entry] = n
+			entries[hh.Entry] = arityOf(hh)
 		}
 	}
 	name, _ := pkgNameOfDir(repo, h.Dir)
